@@ -1327,3 +1327,267 @@ Proof.
           specialize (H E1 E2). discriminate. }
   rewrite Hs. tauto.
 Qed.
+
+(** * The index check at equality is redundant (mutation `blockAppliedIndex >= idx` -> `>` is equivalent)
+
+    [publish1_lt] is [publish1] with the index check [idx <? top] instead of [idx <=? top]; [rstep_lt] is
+    [rstep] with it.  From the initial state both produce the same runs: the entry whose index equals the
+    recorded applied index is a batch whose height is at or below lastExec, so the height check skips it. *)
+Definition publish1_lt (c : rcfg) (m : rmem) (ie : N * entry) : rmem * list (N * blk) :=
+  let '(idx, e) := ie in
+  match e with
+  | EEmpty => (set_applied m idx, [])
+  | EBatch h txs =>
+      if idx <? bai_top (bai m) then (set_applied m idx, [])
+      else if negb (h =? lastExec m + 1) then (set_applied m idx, [])
+      else ({| lastExec := h; applied := idx; snapIdx := snapIdx m; bai := aset N.eqb h idx (bai m);
+               justElected := justElected m; leader := leader m;
+               seqNo := if leader m =? c_id c then seqNo m else h |}, [(idx, (h, txs))])
+  end.
+Fixpoint publish_lt (c : rcfg) (m : rmem) (es : list (N * entry)) : rmem * list (N * blk) :=
+  match es with
+  | [] => (m, [])
+  | ie :: t => let '(m1, o1) := publish1_lt c m ie in
+               let '(m2, o2) := publish_lt c m1 t in (m2, o1 ++ o2)
+  end.
+
+Definition rstep_lt (d : Defects) (c : rcfg) (lg : rlog) (s : rsys) (op : rop) : option (rsys * rout) :=
+  match op with
+  | OReady lo hi app lead =>
+      if (1 <=? lo) && (lo <=? applied (mem s) + 1) && (hi <=? app) && (app <=? avail s)
+         && (stored (disk s) <=? app) && (lo <=? hi + 1)
+      then
+        let m0 := leader_change c (mem s) lead in
+        let all := seg lg lo (N.to_nat (hi + 1 - lo)) in
+        let '(m1, evs) := publish_lt c m0 (entries_to_apply m0 lo all) in
+        let m2 := after_elected m1 app in
+        let snap := (c_snap c <=? applied m2 - snapIdx m2) && snap_guard d m2 (ex s) in
+        let m3 := if snap then {| lastExec := lastExec m2; applied := applied m2; snapIdx := applied m2; bai := bai m2;
+                                  justElected := justElected m2; leader := leader m2; seqNo := seqNo m2 |} else m2 in
+        let dk := {| persisted := persisted (disk s);
+                     dsnap := if snap then applied m2 else dsnap (disk s);
+                     dsnapH := if snap then lastExec m2 else dsnapH (disk s);
+                     stored := app |} in
+        Some ({| mem := m3; disk := dk;
+                 ex := {| chain := chain (ex s); chainIdx := chainIdx (ex s); queue := queue (ex s) ++ evs |};
+                 avail := avail s |},
+              {| o_ev := evs; o_prop := [] |})
+      else None
+  | _ => rstep d c lg s op
+  end.
+
+Fixpoint rrun_lt (d : Defects) (c : rcfg) (lg : rlog) (s : rsys) (ops : list rop) : option (list robs) :=
+  match ops with
+  | [] => Some []
+  | op :: t => match rstep_lt d c lg s op with
+               | None => None
+               | Some (s', o) => match rrun_lt d c lg s' t with
+                                 | Some tr => Some (obs_of s' o :: tr)
+                                 | None => None
+                                 end
+               end
+  end.
+
+Section Equiv.
+  Variable d : Defects.
+  Variable c : rcfg.
+  Variable lg : rlog.
+
+  (** an index that is 0 or points at a batch of height at most [k] *)
+  Definition low_entry (i k : N) : Prop :=
+    i = 0 \/ exists h t, entry_at lg i = Some (EBatch h t) /\ h <= k.
+
+  Definition M2 (m : rmem) : Prop :=
+    (forall kv, In kv (bai m) -> fst kv <= lastExec m /\ low_entry (snd kv) (fst kv))
+    /\ exists k v, is_top (bai m) k v.
+
+  Lemma M2_frame m m' : lastExec m' = lastExec m -> bai m' = bai m -> M2 m -> M2 m'.
+  Proof. unfold M2. intros -> ->. tauto. Qed.
+
+  Lemma M2_top m : M2 m -> low_entry (bai_top (bai m)) (lastExec m).
+  Proof.
+    intros [Hb [k [v [Hv Hall]]]]. rewrite (bai_top_eq _ k v Hv Hall).
+    destruct (Hb _ (alookup_in _ _ _ Hv)) as [Hk [H0|[h [t [He Hh]]]]]; cbn [fst snd] in *.
+    - left. exact H0.
+    - right. exists h, t. split; [exact He|lia].
+  Qed.
+
+  Lemma publish1_lt_eq m idx e :
+    M2 m -> 1 <= idx -> entry_at lg idx = Some e -> publish1_lt c m (idx, e) = publish1 c m (idx, e).
+  Proof.
+    intros HM Hi He. unfold publish1_lt, publish1. destruct e as [|h txs]; [reflexivity|].
+    destruct (N.eq_dec idx (bai_top (bai m))) as [E|E].
+    - rewrite <- E. rewrite N.ltb_irrefl, N.leb_refl.
+      destruct (M2_top m HM) as [H0|[h' [t' [He' Hh']]]]; [lia|].
+      rewrite <- E, He in He'. inversion He'; subst h' t'.
+      destruct (h =? lastExec m + 1) eqn:E2; [apply N.eqb_eq in E2; lia|]. reflexivity.
+    - destruct (idx <? bai_top (bai m)) eqn:E1, (idx <=? bai_top (bai m)) eqn:E2; try reflexivity; lia.
+  Qed.
+
+  Lemma publish1_M2 m idx e m' evs :
+    M2 m -> entry_at lg idx = Some e -> publish1 c m (idx, e) = (m', evs) ->
+    M2 m' /\ Forall (fun ib => entry_at lg (fst ib) = Some (EBatch (fst (snd ib)) (snd (snd ib)))) evs.
+  Proof.
+    intros HM He Hp. unfold publish1 in Hp. destruct e as [|h txs].
+    - inversion Hp; subst. split; [apply (M2_frame m); try reflexivity; exact HM|constructor].
+    - destruct (idx <=? bai_top (bai m)); [inversion Hp; subst; split; [apply (M2_frame m); try reflexivity; exact HM|constructor]|].
+      destruct (h =? lastExec m + 1) eqn:E2; cbn [negb] in Hp;
+        [|inversion Hp; subst; split; [apply (M2_frame m); try reflexivity; exact HM|constructor]].
+      apply N.eqb_eq in E2. inversion Hp; subst m' evs. clear Hp. destruct HM as [Hb Htop].
+      split; [|constructor; [exact He|constructor]].
+      unfold M2. cbn. split.
+      + intros kv Hin. apply in_aset in Hin. destruct Hin as [->|Hin]; cbn [fst snd].
+        * split; [lia|]. right. exists h, txs. split; [exact He|lia].
+        * destruct (Hb kv Hin) as [H1 H2]. split; [lia|exact H2].
+      + exists h, idx. split; [apply alookup_aset_eq|]. intros kv Hin. apply in_aset in Hin.
+        destruct Hin as [->|Hin]; cbn [fst]; [lia|]. destruct (Hb kv Hin) as [H1 _]. lia.
+  Qed.
+
+  Lemma publish_lt_eq es : forall m lo, M2 m -> 1 <= lo -> consec lg lo es ->
+    publish_lt c m es = publish c m es.
+  Proof.
+    induction es as [|[i e] t IH]; intros m lo HM Hlo Hc; [reflexivity|].
+    cbn [consec] in Hc. destruct Hc as [Hi [He Ht]]. subst i.
+    cbn [publish_lt publish]. rewrite (publish1_lt_eq m lo e HM Hlo He).
+    destruct (publish1 c m (lo, e)) as [m1 o1] eqn:E1.
+    destruct (publish1_M2 _ _ _ _ _ HM He E1) as [HM1 _].
+    rewrite (IH m1 (lo + 1) HM1 ltac:(lia) Ht). reflexivity.
+  Qed.
+
+  Lemma publish_M2 es : forall m lo m' evs, M2 m -> consec lg lo es -> publish c m es = (m', evs) ->
+    M2 m' /\ Forall (fun ib => entry_at lg (fst ib) = Some (EBatch (fst (snd ib)) (snd (snd ib)))) evs.
+  Proof.
+    induction es as [|[i e] t IH]; intros m lo m' evs HM Hc Hp; cbn [publish] in Hp.
+    - inversion Hp; subst. split; [exact HM|constructor].
+    - cbn [consec] in Hc. destruct Hc as [Hi [He Ht]].
+      destruct (publish1 c m (i, e)) as [m1 o1] eqn:E1. destruct (publish c m1 t) as [m2 o2] eqn:E2.
+      inversion Hp; subst m' evs. clear Hp.
+      destruct (publish1_M2 _ _ _ _ _ HM He E1) as [HM1 Hf1].
+      destruct (IH _ _ _ _ HM1 Ht E2) as [HM2 Hf2]. split; [exact HM2|apply Forall_app; split; assumption].
+  Qed.
+
+  (** system level *)
+  Definition entry_ok (ib : N * blk) : Prop := entry_at lg (fst ib) = Some (EBatch (fst (snd ib)) (snd (snd ib))).
+  Definition Inv2 (s : rsys) : Prop :=
+    M2 (mem s)
+    /\ Forall entry_ok (queue (ex s))
+    /\ contig_from (chain (ex s)) (map snd (queue (ex s)))
+    /\ lastExec (mem s) = chain (ex s) + N.of_nat (length (queue (ex s)))
+    /\ low_entry (persisted (disk s)) (chain (ex s))
+    /\ low_entry (chainIdx (ex s)) (chain (ex s)).
+
+  Lemma low_entry_mono i k k' : k <= k' -> low_entry i k -> low_entry i k'.
+  Proof. intros Hk [H0|[h [t [He Hh]]]]; [left; exact H0|right; exists h, t; split; [exact He|lia]]. Qed.
+
+  Lemma acc_entry_ok ib : acc (c_init c) lg ib -> entry_ok ib.
+  Proof. destruct ib as [i [h t]]. intros [_ [He _]]. exact He. Qed.
+
+  Lemma Inv2_init : Inv2 (init_sys d c).
+  Proof.
+    unfold Inv2, init_sys, M2, restart_mem. cbn. split; [|split; [constructor|split; [exact I|split; [lia|split; left; reflexivity]]]].
+    split.
+    - intros kv [<-|[]]. cbn. split; [lia|]. left. destruct (d_restart_height_only d); reflexivity.
+    - exists (c_init c). eexists. split; [cbn; rewrite N.eqb_refl; reflexivity|]. intros kv [<-|[]]. cbn. lia.
+  Qed.
+
+  Lemma rstep_Inv2 s op s' o : Inv2 s -> rstep d c lg s op = Some (s', o) -> Inv2 s'.
+  Proof.
+    intros [HM [Hq [Hcon [Hlen [Hp Hci]]]]] Hst. destruct op; cbn [rstep] in Hst.
+    - destruct (avail s <? N.of_nat (length lg)); [|discriminate]. inversion Hst; subst. unfold Inv2. cbn. auto 10.
+    - destruct ((1 <=? lo) && (lo <=? applied (mem s) + 1) && (hi <=? app) && (app <=? avail s)
+                && (stored (disk s) <=? app) && (lo <=? hi + 1)) eqn:Eg; [|discriminate].
+      assert (Hlo : lo <= applied (mem s) + 1) by (rewrite !andb_true_iff in Eg; lia).
+      set (m0 := leader_change c (mem s) lead) in *.
+      destruct (leader_change_frame c (mem s) lead) as [Hf1 [Hf2 [Hf3 Hf4]]]. fold m0 in Hf1, Hf2, Hf3, Hf4.
+      assert (HM0 : M2 m0) by (apply (M2_frame (mem s)); assumption).
+      destruct (publish c m0 (entries_to_apply m0 lo (seg lg lo (N.to_nat (hi + 1 - lo))))) as [m1 evs] eqn:Ep.
+      assert (Hcons : consec lg (applied m0 + 1) (entries_to_apply m0 lo (seg lg lo (N.to_nat (hi + 1 - lo))))).
+      { apply entries_to_apply_consec; [rewrite Hf2; exact Hlo | apply seg_consec]. }
+      destruct (publish_M2 _ _ _ _ _ HM0 Hcons Ep) as [HM1 Hev].
+      destruct (publish_contig c _ _ _ _ Ep) as [Hc1 Hl1].
+      destruct (after_elected_frame m1 app) as [Hg1 [Hg2 [Hg3 Hg4]]].
+      inversion Hst; subst s' o. clear Hst. unfold Inv2. cbn [mem ex disk queue chain chainIdx persisted].
+      assert (HM2 : M2 (after_elected m1 app)) by (apply (M2_frame m1); assumption).
+      split; [destruct ((c_snap c <=? applied (after_elected m1 app) - snapIdx (after_elected m1 app)) &&
+                        snap_guard d (after_elected m1 app) (ex s)); [apply (M2_frame (after_elected m1 app)); try reflexivity|]; exact HM2|].
+      split; [apply Forall_app; split; assumption|].
+      split; [rewrite map_app; apply contig_from_app; [exact Hcon|]; rewrite map_length, <- Hlen, <- Hf1; exact Hc1|].
+      split; [|split; assumption].
+      rewrite app_length.
+      assert (lastExec (after_elected m1 app) = chain (ex s) + N.of_nat (length (queue (ex s)) + length evs)) by lia.
+      destruct ((c_snap c <=? applied (after_elected m1 app) - snapIdx (after_elected m1 app)) &&
+                snap_guard d (after_elected m1 app) (ex s)); cbn [lastExec]; exact H.
+    - destruct (queue (ex s)) as [|[i [h t]] q] eqn:Eq.
+      + inversion Hst; subst. unfold Inv2. rewrite Eq. auto 10.
+      + inversion Hst; subst s' o. clear Hst. inversion Hq as [|? ? He Hq']; subst.
+        cbn [map snd contig_from fst] in Hcon. destruct Hcon as [Hh Hcon]. cbn [length] in Hlen.
+        unfold Inv2. cbn. split; [exact HM|]. split; [exact Hq'|]. split; [rewrite Hh; exact Hcon|]. split; [lia|].
+        split; [eapply low_entry_mono; [|exact Hp]; lia|]. right. exists h, t. split; [exact He|lia].
+    - destruct (h <=? chain (ex s)) eqn:Eh; [|discriminate]. apply N.leb_le in Eh.
+      destruct (alookup N.eqb h (bai (mem s))) as [i|] eqn:El.
+      + inversion Hst; subst s' o. clear Hst. destruct HM as [Hb [k [v [Hv Hall]]]].
+        destruct (Hb _ (alookup_in _ _ _ El)) as [Hk1 Hk2]. cbn [fst snd] in Hk1, Hk2.
+        pose proof (Hall _ (alookup_in _ _ _ El)) as Hk3. cbn [fst] in Hk3.
+        unfold Inv2, M2. cbn. split; [|split; [exact Hq|split; [exact Hcon|split; [exact Hlen|split; [|exact Hci]]]]].
+        * destruct (h =? 0) eqn:E0; [split; [exact Hb|exists k, v; split; assumption]|].
+          apply N.eqb_neq in E0. split.
+          -- intros kv Hin. apply Hb. eapply in_aremove. exact Hin.
+          -- exists k, v. split; [rewrite alookup_aremove_ne; [exact Hv|lia]|].
+             intros kv Hin. apply Hall. eapply in_aremove. exact Hin.
+        * eapply low_entry_mono; [|exact Hk2]. lia.
+      + inversion Hst; subst. unfold Inv2. auto 10.
+    - match type of Hst with (if ?cnd then _ else _) = _ => destruct cnd eqn:Ec; [|discriminate] end.
+      inversion Hst; subst s' o. clear Hst.
+      assert (Hbs : Forall entry_ok bs /\ contig_from (chain (ex s)) (map snd bs)).
+      { destruct (negb (d_snapin_lost d) && (chain (ex s) <? dsnapH (disk s))).
+        - destruct (sync_ok_spec c lg _ _ _ Ec) as [Ha [Hc _]]. split; [|exact Hc].
+          eapply Forall_impl; [|exact Ha]. intros a Ha'. apply acc_entry_ok. exact Ha'.
+        - destruct bs; [split; [constructor|exact I]|discriminate]. }
+      destruct Hbs as [Hb1 Hb2].
+      unfold Inv2, M2, restart_mem. cbn. split; [|split; [exact Hb1|split; [exact Hb2|split; [lia|split; assumption]]]].
+      split.
+      + intros kv [<-|[]]. cbn. split; [lia|]. destruct (d_restart_height_only d); assumption.
+      + exists (chain (ex s)). eexists. split; [cbn; rewrite N.eqb_refl; reflexivity|]. intros kv [<-|[]]. cbn. lia.
+    - match type of Hst with (if ?cnd then _ else _) = _ => destruct cnd eqn:Ec; [|discriminate] end.
+      rewrite !andb_true_iff in Ec. destruct Ec as [[[[_ _] _] Hok] _].
+      destruct (sync_ok_spec c lg _ _ _ Hok) as [Ha [Hc Hl]].
+      inversion Hst; subst s' o. clear Hst.
+      match goal with |- Inv2 {| mem := after_elected ?m ?a; disk := _; ex := _; avail := _ |} =>
+        destruct (after_elected_frame m a) as [Hg1 [Hg2 [Hg3 Hg4]]]; set (m1 := m) in * end.
+      assert (HM1 : M2 m1).
+      { destruct HM as [Hb Htop]. unfold M2, m1. cbn. split; [|exact Htop].
+        intros kv Hin. destruct (Hb kv Hin) as [H1 H2]. split; [lia|exact H2]. }
+      unfold Inv2. cbn [mem ex disk queue chain chainIdx persisted].
+      split; [apply (M2_frame m1); assumption|].
+      split; [apply Forall_app; split; [exact Hq|]; eapply Forall_impl; [|exact Ha]; intros a Ha'; apply acc_entry_ok; exact Ha'|].
+      split; [rewrite map_app; apply contig_from_app; [exact Hcon|]; rewrite map_length, <- Hlen; exact Hc|].
+      split; [rewrite app_length, Hg1; unfold m1; cbn; lia|split; assumption].
+    - destruct (leader (mem s) =? c_id c).
+      + inversion Hst; subst. unfold Inv2. cbn. split; [apply (M2_frame (mem s)); try reflexivity; exact HM|auto 10].
+      + destruct (k =? 0); [|discriminate]. inversion Hst; subst. unfold Inv2. auto 10.
+    - inversion Hst; subst. unfold Inv2. auto 10.
+  Qed.
+
+  Lemma rstep_lt_eq s op : Inv2 s -> rstep_lt d c lg s op = rstep d c lg s op.
+  Proof.
+    intros [HM _]. destruct op; try reflexivity. cbn [rstep_lt rstep].
+    destruct ((1 <=? lo) && (lo <=? applied (mem s) + 1) && (hi <=? app) && (app <=? avail s)
+              && (stored (disk s) <=? app) && (lo <=? hi + 1)) eqn:Eg; [|reflexivity].
+    assert (Hlo : lo <= applied (mem s) + 1) by (rewrite !andb_true_iff in Eg; lia).
+    destruct (leader_change_frame c (mem s) lead) as [Hf1 [Hf2 [Hf3 Hf4]]].
+    assert (HM0 : M2 (leader_change c (mem s) lead)) by (apply (M2_frame (mem s)); assumption).
+    rewrite (publish_lt_eq _ _ (applied (leader_change c (mem s) lead) + 1) HM0 ltac:(lia)); [reflexivity|].
+    apply entries_to_apply_consec; [rewrite Hf2; exact Hlo | apply seg_consec].
+  Qed.
+
+  Theorem rrun_lt_eq ops : forall s, Inv2 s -> rrun_lt d c lg s ops = rrun d c lg s ops.
+  Proof.
+    induction ops as [|op ops IH]; intros s HI; [reflexivity|]. cbn [rrun_lt rrun].
+    rewrite (rstep_lt_eq s op HI). destruct (rstep d c lg s op) as [[s' o]|] eqn:Es; [|reflexivity].
+    rewrite (IH s' (rstep_Inv2 _ _ _ _ HI Es)). reflexivity.
+  Qed.
+
+  Theorem index_check_equality_redundant ops :
+    rrun_lt d c lg (init_sys d c) ops = rrun d c lg (init_sys d c) ops.
+  Proof. apply rrun_lt_eq. apply Inv2_init. Qed.
+End Equiv.
